@@ -191,3 +191,45 @@ def _(v):
         v.prove("reversible_step_with_inactive_parts.%s.names" % label, list(ode3.names) == ["A", "B", "C", "S", "W"])
         for e, s in zip(ode3.exprs, "ABCSW"):
             v.prove_identity("reversible_step_with_inactive_parts.%s.rhs_%s" % (label, s), e, want3[s])
+
+
+@harness("C06", "euler_step_with_scaled_variables_and_missing_constants", functions=[ODE + ":get_odesys", ODE + ":get_odesys.<locals>.max_euler_step_cb"], kind="data")
+def _(v):
+    """(a) the advertised Euler step on the real pyodesys classes, also when the ODE system keeps its dependent variables in scaled form
+    (ScaledSys, dep_scaling -- the configuration chempy's own examples use for stiff problems): one explicit step from the USER's concentrations
+    with the independent mass-action rate stays inside [0, elemental bound] for a bimolecular step; (b) 'agree with the exact solution': a
+    network in which one reaction has no rate constant has no solution to agree with -- it is refused, never integrated with the remaining
+    constants shifted onto other reactions"""
+    from chempy.chemistry import Substance
+    from chempy.reactionsystem import ReactionSystem
+    from chempy.kinetics.ode import get_odesys
+    from pyodesys.symbolic import ScaledSys
+    kf = 1.4e11
+    rsys = ReactionSystem.from_string("H+ + OH- -> H2O; %r" % kf)
+    cases = [{"H+": 1e-3, "OH-": 2e-4, "H2O": 55.0}, {"H+": 3e-7, "OH-": 5e-6, "H2O": 1.0}, {"H+": 0.25, "OH-": 0.75, "H2O": 0.0}]
+    bad = []
+    for label, kw in (("plain", {}), ("dep_scaling=1e6", dict(SymbolicSys=ScaledSys, dep_scaling=1e6)), ("dep_scaling=1e-3", dict(SymbolicSys=ScaledSys, dep_scaling=1e-3))):
+        try:
+            odesys, extra = get_odesys(rsys, **kw)
+            for c0 in cases:
+                h = float(extra["max_euler_step_cb"](0, c0))
+                r = kf * c0["H+"] * c0["OH-"]
+                f = {"H+": -r, "OH-": -r, "H2O": r}
+                H, O = c0["H+"] + c0["OH-"] + 2 * c0["H2O"], c0["OH-"] + c0["H2O"]
+                ub = {"H+": H, "OH-": min(H, O), "H2O": min(H / 2, O)}
+                scale = max(c0.values())
+                for k in c0:
+                    c1 = c0[k] + h * f[k]
+                    if not (h > 0 and -1e-12 * scale <= c1 <= ub[k] * (1 + 1e-12) + 1e-12 * scale):
+                        bad.append((label, c0, h, k, c1))
+        except Exception as ex:
+            bad.append((label, repr(ex)[:120]))
+    v.prove("one_step_from_user_concentrations_stays_inside", not bad, detail=repr(bad[:2]))
+    answered = []
+    for text in ("A -> B; 2\nB -> C\nC -> D; 5", "A -> B\nB -> C; 2"):
+        try:
+            o, _e = get_odesys(ReactionSystem.from_string(text, substance_factory=Substance))
+            answered.append((text, str(getattr(o, "exprs", None))[:120]))
+        except Exception:
+            pass
+    v.prove("missing_rate_constant_is_refused", not answered, detail=repr(answered))
